@@ -17,6 +17,7 @@
 use crate::cluster::GraphemeCluster;
 use crate::component::Component;
 use crate::expression::Expression;
+use crate::grapheme::Grapheme;
 use crate::quantifier::Quantifier;
 use itertools::Itertools;
 use std::collections::BTreeSet;
@@ -257,27 +258,42 @@ fn format_literal(
         .iter()
         .cloned()
         .map(|mut grapheme| {
-            if grapheme.has_repetitions() {
-                grapheme
-                    .repetitions_mut()
-                    .iter_mut()
-                    .for_each(|repeated_grapheme| {
-                        repeated_grapheme.escape_regexp_symbols(
-                            is_non_ascii_char_escaped,
-                            is_astral_code_point_converted_to_surrogate,
-                        );
-                    });
-            } else {
-                grapheme.escape_regexp_symbols(
-                    is_non_ascii_char_escaped,
-                    is_astral_code_point_converted_to_surrogate,
-                );
-            }
+            escape_regexp_symbols(
+                &mut grapheme,
+                is_non_ascii_char_escaped,
+                is_astral_code_point_converted_to_surrogate,
+            );
             grapheme.to_string()
         })
         .join("");
 
     write!(f, "{}", literal_str)
+}
+
+/// Escapes the innermost graphemes of arbitrarily deeply nested repetitions,
+/// these are the ones whose characters are actually printed.
+fn escape_regexp_symbols(
+    grapheme: &mut Grapheme,
+    is_non_ascii_char_escaped: bool,
+    is_astral_code_point_converted_to_surrogate: bool,
+) {
+    if grapheme.has_repetitions() {
+        grapheme
+            .repetitions_mut()
+            .iter_mut()
+            .for_each(|repeated_grapheme| {
+                escape_regexp_symbols(
+                    repeated_grapheme,
+                    is_non_ascii_char_escaped,
+                    is_astral_code_point_converted_to_surrogate,
+                );
+            });
+    } else {
+        grapheme.escape_regexp_symbols(
+            is_non_ascii_char_escaped,
+            is_astral_code_point_converted_to_surrogate,
+        );
+    }
 }
 
 fn format_repetition(
